@@ -42,6 +42,7 @@ def short_read_rule(chk, fns):
 
 
 def run(db, chk):
+    deflate_count_rule(db, chk)
     f = db.one("^" + P + r"find::<impl gix_odb::store_impls::loose::Store>::find_inner$")
     fl = Flow(f)
     oks = [bi for bi, si, pl, rv, ln, mc in f.assigns() if rv[0] == "agg" and rv[1] == "adt" and rv[2].endswith("gix_object::Data")]
@@ -126,3 +127,15 @@ def run(db, chk):
     d = db.one("^" + P + r"write::<impl gix_odb::store_impls::loose::Store>::dest$")
     chk.ob("hash-wraps-compressor", "dest()", bool(d.calls_to(r"hash::Write::<T>::new$|hash::write::Write::<T>::new$|hash::Write<T>>::new$")) and bool(d.calls_to(r"deflate::Write::<W>::new$|deflate::Write<W>>::new$")) and bool(d.calls_to(r"::tempfile_in$")),
            "dest() must build hash::Write(deflate::Write(tempfile in the objects dir))", "%s:%d" % (d.file, d.line), key="hash-wraps-compressor")
+
+
+def deflate_count_rule(db, chk):
+    """every loose object is written through hash::Write<deflate::Write<file>>: if deflate's write() reports fewer bytes than it consumed, write_all
+    feeds the rest again and the stored stream inflates to the object plus duplicated spans - under the id of the original.  Same rule as C56
+    (count-measured-from-entry), evaluated here because it decides C11's round trip for objects larger than one deflate block."""
+    from props.C56 import count_from_entry_rule
+    wi = db.one(r"^gix_features::zlib::stream::deflate::impls::<impl gix_features::zlib::stream::deflate::Write<W>>::write_inner$")
+    comp = wi.calls_to(r"Compress::compress$")
+    ls = [l for l in wi.loops() if any(c.block in l["body"] for c in comp)]
+    chk.floor("deflate write_inner: compress loop", len(ls), 1)
+    count_from_entry_rule(chk, wi, Flow(wi), ls)
